@@ -3,7 +3,9 @@
 Everything here is written from the *documentation* of the test problems (docstrings of
 cuqi.testproblem and of scipy.ndimage for the boundary modes) with explicit index arithmetic
 in dense numpy.  Nothing in this module imports or calls cuqi; scipy.ndimage is only touched by
-``selftest`` (a one-off cross-check of the index formulas, a harness self-test, not an oracle).
+``selftest`` (a one-off cross-check of the index formulas, a harness self-test, not an oracle);
+scipy.interpolate's general interpolating-spline constructors are the trusted base of ``observe_refs``
+(the accepted family of interpolants for off-node observation points of the PDE problems).
 """
 import math
 import numpy as np
@@ -369,6 +371,44 @@ def heat_final(u0, dx, time_steps, method="forward_euler"):
         else:
             u = np.linalg.solve(np.eye(N) - dt * L, u)
     return u
+
+
+def observe_refs(grid_sol, u, points, tol=1e-12):
+    """Admissible values of "the solution u (given on the increasing nodes grid_sol) observed at ``points``", IN THE
+    ORDER of ``points`` (any order, repetitions allowed, all inside [grid_sol[0], grid_sol[-1]]).
+
+    * every point is a solution node (|distance| <= tol): the node values, picked by explicit index search - the only
+      admissible answer (every interpolant reproduces the nodal values);
+    * otherwise the interpolation rule is not documented ("the grid on which the observed solution should be
+      interpolated"): the accepted family is the piecewise-linear interpolant (own index arithmetic), the quadratic and
+      the cubic (not-a-knot) interpolating spline and the natural cubic spline through ALL nodes (scipy.interpolate is
+      the trusted base for these three), each evaluated point by point.
+    Returns a list of arrays of len(points)."""
+    gs = np.asarray(grid_sol, float).ravel()
+    u = np.asarray(u, float).ravel()
+    pts = np.asarray(points, float).ravel()
+    if gs.size != u.size or gs.size < 2 or not np.all(np.diff(gs) > 0):
+        raise ValueError("observe_refs: needs increasing nodes and one value per node")
+    if pts.size and (pts.min() < gs[0] - tol or pts.max() > gs[-1] + tol):
+        raise ValueError("observe_refs: point outside the hull of the nodes (extrapolation is not covered)")
+    idx = [int(np.argmin(np.abs(gs - p))) for p in pts]
+    if all(abs(gs[j] - p) <= tol for j, p in zip(idx, pts)):
+        return [np.array([u[j] for j in idx], float)]
+    lin = np.empty(pts.size)
+    for i, p in enumerate(pts):
+        j = min(max(int(np.searchsorted(gs, p, side="right")) - 1, 0), gs.size - 2)
+        w = (p - gs[j]) / (gs[j + 1] - gs[j])
+        lin[i] = (1.0 - w) * u[j] + w * u[j + 1]
+    out = [lin]
+    from scipy.interpolate import make_interp_spline, CubicSpline
+    for k in (2, 3):
+        if gs.size > k:
+            s = make_interp_spline(gs, u, k=k)
+            out.append(np.array([float(s(p)) for p in pts]))
+    if gs.size > 2:
+        s = CubicSpline(gs, u, bc_type="natural")
+        out.append(np.array([float(s(p)) for p in pts]))
+    return out
 
 
 def wang_cubic(x):
